@@ -191,7 +191,7 @@ type str struct {
 	halfway bool
 }
 
-var stringFamilies = []string{"decimal", "halfway", "hexoctbin", "digits-of-double", "wrapped", "edge-exponent"}
+var stringFamilies = []string{"decimal", "halfway", "hexoctbin", "digits-of-double", "wrapped", "edge-exponent", "long-integer-midpoint"}
 
 // decimalOf writes the exact decimal expansion of num/2^sh (finite by construction).
 func decimalOfDyadic(num *big.Int, sh int) (digits string, exp10 int) {
@@ -394,6 +394,16 @@ func genString(r *core.Rng, fam int) []str {
 			s += core.Pick(r, []string{"x", "px", "e", ".", "_", "n", "\u0085", "\u200b"})
 		}
 		return []str{{s: s, fam: f}}
+	case 6: // plain long decimal integers at / next to the midpoint between two doubles (no fraction, no exponent)
+		z, what := midpointInt(r)
+		t := z.String()
+		if r.Chance(1, 6) {
+			t = core.Pick(r, []string{"-", "+"}) + t
+		}
+		if r.Chance(1, 8) {
+			t = core.Pick(r, []string{" ", "\u00a0", "\n"}) + t + core.Pick(r, []string{"", " ", "\ufeff"})
+		}
+		return []str{{s: t, fam: f, halfway: what == "mid"}}
 	default: // huge / degenerate exponents and long zero runs
 		forms := []string{"1e" + itoa(r.Range(300, 330)), "1e-" + itoa(r.Range(300, 345)), "0." + strings.Repeat("0", r.Range(300, 340)) + string(randDigits(r, r.Range(1, 30), false)),
 			string(randDigits(r, r.Range(1, 20), false)) + strings.Repeat("0", r.Range(280, 320)), "1e99999999999999999999", "1e-99999999999999999999", "0e99999999999999999999", "0.0e-99999999999999999999",
@@ -411,6 +421,122 @@ type pint struct {
 	s        string
 	radix    int64 // value passed as the radix argument (after ToInt32 it is R)
 	hasRadix bool
+	strRadix bool   // the radix argument is passed as a string ("10")
+	fam      string // "" = random digits; "midpoint" = long integer at / next to the midpoint between two doubles
+}
+
+// midpointInt returns an integer >= 2^70 that lies exactly on, or a (relatively) tiny distance from, the midpoint between
+// two adjacent doubles: m = (2M+1)*2^(e-1) with M a 53-bit significand, plus a delta from {0, ±1, ±10^k, ±r} where r has
+// far fewer digits than m, so that a digit far behind the 20th decides the rounding direction.
+func midpointInt(r *core.Rng) (z *big.Int, what string) {
+	var e int
+	switch r.Intn(4) {
+	case 0:
+		e = r.Range(18, 60) // 22..35 decimal digits
+	case 1:
+		e = r.Range(60, 200) // up to 77 digits
+	case 2:
+		e = r.Range(200, 971) // up to 309 digits
+	default:
+		e = r.Range(18, 130)
+	}
+	var M uint64
+	switch r.Intn(4) {
+	case 0:
+		M = core.Pick(r, []uint64{1 << 52, 1<<52 + 1, 1<<53 - 2, 1<<53 - 1, 0x15555555555555, 0x1999999999999a, 0x1c71c71c71c71d})
+	default:
+		M = 1<<52 | r.U64()&(1<<52-1)
+	}
+	z = new(big.Int).SetUint64(2*M + 1)
+	z.Lsh(z, uint(e-1))
+	nd := len(z.String())
+	delta := new(big.Int)
+	switch r.Intn(7) {
+	case 0:
+		what = "mid"
+	case 1:
+		delta.SetInt64(1)
+		what = "mid+1"
+	case 2:
+		delta.SetInt64(-1)
+		what = "mid-1"
+	case 3:
+		delta.Exp(big.NewInt(10), big.NewInt(int64(r.Range(1, 6))), nil)
+		what = "mid+10^k"
+	case 4:
+		delta.Exp(big.NewInt(10), big.NewInt(int64(r.Range(1, 6))), nil)
+		delta.Neg(delta)
+		what = "mid-10^k"
+	default:
+		// r with at most nd-22 digits (but at least 1): the first non-zero difference from the midpoint is behind digit 21
+		k := r.Range(1, max(1, nd-22))
+		if r.Chance(1, 2) {
+			k = r.Range(1, max(1, min(nd-22, 12)))
+		}
+		d := randDigits(r, k, false)
+		delta.SetString(string(d), 10)
+		what = "mid+r"
+		if r.Bool() {
+			delta.Neg(delta)
+			what = "mid-r"
+		}
+	}
+	z.Add(z, delta)
+	return z, what
+}
+
+func genParseIntMidpoint(r *core.Rng) pint {
+	z, _ := midpointInt(r)
+	p := pint{fam: "midpoint", hasRadix: true}
+	R := 10
+	if r.Chance(2, 5) {
+		R = core.Pick(r, []int{2, 8, 16, 36, 4, 32, 3, 7, 12, 20, 35})
+	}
+	p.radix = int64(R)
+	t := z.Text(R)
+	if R > 10 && r.Chance(1, 3) {
+		t = strings.ToUpper(t)
+	}
+	pfx := ""
+	switch R {
+	case 10:
+		switch r.Intn(4) {
+		case 0:
+			p.hasRadix = false
+		case 1:
+			p.radix = 0
+		case 2:
+			p.strRadix = true
+		}
+	case 16:
+		switch r.Intn(4) {
+		case 0:
+			pfx = core.Pick(r, []string{"0x", "0X"})
+			p.hasRadix = false
+		case 1:
+			pfx = "0x"
+			p.radix = 0
+		case 2:
+			pfx = "0x"
+		}
+	default:
+		p.strRadix = r.Chance(1, 5)
+	}
+	var b strings.Builder
+	b.WriteString(core.Pick(r, []string{"", "", "", " ", "\t\n", "\u00a0", "\ufeff"}))
+	b.WriteString(core.Pick(r, []string{"", "", "-", "+"}))
+	b.WriteString(pfx)
+	if r.Chance(1, 5) {
+		b.WriteString(strings.Repeat("0", r.Range(1, 4)))
+	}
+	b.WriteString(t)
+	garbage := []string{"", "", "", "px", ".5", " ", "_1", "!", "\u00a0", "n"}
+	if R > 10 {
+		garbage = []string{"", "", "", ".5", " ", "_1", "!", "\u00a0"}
+	}
+	b.WriteString(core.Pick(r, garbage))
+	p.s = b.String()
+	return p
 }
 
 const radixDigits = "0123456789abcdefghijklmnopqrstuvwxyz"
